@@ -20,9 +20,9 @@
 // Protected operations (CloneDataNodeSubtree, SaveNodeTreeToMessage / RestoreNodeTreeFromMessage, several SetDataNode /
 // RemoveDataNodes calls in one handler) are executed from INSIDE MessageReceivedFromGateway of the session subclass on private
 // what-codes, exactly as a server-side subclass would: outside a handler the subscriber updates would stay unflushed.
-#define private public       // replay of IndexImpl behaviours only: DataNode::_orderedCounter of a NEWLY CREATED node is reset to 0 (a recycled
-#include "reflector/DataNode.h"   // DataNode keeps the counter of its previous life; the specification starts every node at 0).  No layout change.
-#undef private
+// No private member of the library is touched: the harness uses the public API and, from the session subclass, the protected one
+// (a renaming of private members cannot break it; checks build it with vlib.make_with_fallback all the same).  The generated-name
+// counter of a new DataNode starts at 0 since the repair of F40 (DataNode::Init), which is what IndexImpl assumes.
 #include "reflector/ReflectServer.h"
 #include "reflector/StorageReflectSession.h"
 #include "reflector/StorageReflectConstants.h"
@@ -552,11 +552,6 @@ static int Replay(const char * behFile, const char * repFile)
          g_context = "behaviour " + std::to_string((long long) b["id"].i()) + " step " + std::to_string((long long) si) + " " + mj::ToString(st["cmd"]);
          w.Exec(st["cmd"]);
          Tree t; w.Walk(t);
-         if (isIndex)
-         {
-            // the specification starts the generated-name counter of a new node at 0; a recycled DataNode keeps its old one
-            for (size_t k=0; k<st["fresh"].a.size(); k++) { Client * o = w.ByName(st["owner"].s); if (o) { Tree::iterator it = t.find(o->root + "/" + st["fresh"].a[k].s); if (it != t.end()) it->second.ptr->_orderedCounter = 0; } }
-         }
          w.Check(t);
          // the specification's expectation
          if (!isIndex)
